@@ -642,8 +642,8 @@ func checkDC(c dcCase, o *kit.Obs) error {
 func TestProp(t *testing.T) {
 	runtime.GOMAXPROCS(3)
 	kit.Run(t, "C02", rule,
-		kit.Clause[mcCase]{Name: "C02/mc/lattice-relation", Quick: 2000, Thorough: 30000, Gen: genMC, Check: checkMC, Fresh: true},
-		kit.Clause[msCase]{Name: "C02/ms/lattice-relation", Quick: 6000, Thorough: 100000, Gen: genMS, Check: checkMS, Fresh: true},
-		kit.Clause[dcCase]{Name: "C02/dc/crossings", Quick: 1600, Thorough: 25000, Gen: genDC, Check: checkDC, Fresh: true},
+		kit.Clause[mcCase]{Name: "C02/mc/lattice-relation", Quick: 4000, Thorough: 30000, Gen: genMC, Check: checkMC, Fresh: true},
+		kit.Clause[msCase]{Name: "C02/ms/lattice-relation", Quick: 12000, Thorough: 100000, Gen: genMS, Check: checkMS, Fresh: true},
+		kit.Clause[dcCase]{Name: "C02/dc/crossings", Quick: 3200, Thorough: 25000, Gen: genDC, Check: checkDC, Fresh: true},
 	)
 }
